@@ -1,6 +1,7 @@
 CHECK = {
     "suites": [suite("calls", "c04", 250, 20000, stdin=True)],
-    "lean_sources": ["ClusterVerif/Model/Pin.lean", "ClusterVerif/Model/C04.lean", "ClusterVerif/Spec/C04.lean",
+    "gen": [{"pkg": "extract_c04", "out": "lean/ClusterVerif/Gen/C04.lean"}],
+    "lean_sources": ["ClusterVerif/Model/C04Source.lean", "ClusterVerif/Gen/C04.lean", "ClusterVerif/Model/Pin.lean", "ClusterVerif/Model/C04.lean", "ClusterVerif/Spec/C04.lean",
                      "ClusterVerif/Model/C03.lean", "ClusterVerif/Spec/C03.lean", "ClusterVerif/Lemmas/C04.lean"],
     "rule": "histories of 4-25 Pin/PinPath/PinUpdate/Unpin/UnpinPath/rpc-pin calls over 12 CIDs (6 data, a sharded group), options drawn or derived "
             "from the stored pin with one field changed/added/removed, 5 default-factor settings, follower on/off, preloaded pinsets; every call is one case "
@@ -18,5 +19,5 @@ META = {
             "and by evaluating the Lean property clauses on the implementation's own outputs.",
     "note": "Trusted: Lean kernel, hand-written model/spec, harness fakes (consensus = dsstate applying ops directly, table IPFS connector), verif_export.go. "
             "Allocation validity is delegated to C03.",
-    "technique": "Lean 4 theorem over a step model + differential correspondence per API call with explicit pre-state",
+    "technique": "Lean 4 theorem over a step model + regenerated source text of the anchored functions checked against the transcribed snapshot (rfl) + differential correspondence per API call with explicit pre-state",
 }
